@@ -160,11 +160,14 @@ func (d prefixedDebugger) prepend(v []interface{}) []interface{} {
 }
 
 func (d prefixedDebugger) prependFormat(format string) string {
+	// the prefix is text, not part of the format: a '%' in it must not be read as a verb
+	prefix := strings.ReplaceAll(d.prefix, "%", "%%")
+
 	if strings.HasPrefix(format, "[") {
-		return d.prefix + format
+		return prefix + format
 	}
 
-	return d.prefix + " " + format
+	return prefix + " " + format
 }
 
 func (d prefixedDebugger) Log(v ...interface{}) {
